@@ -120,7 +120,7 @@ CHECKS = {
   "catchFailNow runs its callback only for the failNow panic value; the polarity applied to each [cond] guard is that of this very guard; demands of exists (every listed file exists, or with ! does not) and of stdout/stderr/grep/ttyout (match, or with ! no match; with -count=N exactly N matches) hold on every normal return; "
   "for cd, chmod, cp, mkdir, mv, symlink, unquote, unix2dos, stdin, stop, cmp/cmpenv, wait and rm a normal return means the command was not negated where negation is unsupported, was used with the right number of arguments (every args index in bounds), and (except rm's best-effort first removal) no file operation it performed failed; skip never returns normally. condition() is under contract (an operating-system name holds exactly for the current OS, an architecture name for the current architecture, unix per the table, gc/gccgo, exec: through the cache; anything else needs a user Condition, else Fatalf); the standalone command's Run never clears its failure flag (a failing script followed by a passing one still exits non-zero).",
   "assumed: only non-panicking executions are modelled (a Fatalf call ends its path, recover() is nil), so runLine's boolean result and callBuiltinCmd's panic filtering are trusted, as are waitBackgroundOne (bounded stand-in under C04), condition's user-callback closure, unix2DOS and the logging closures (setup and waitBackground are verified under C04); "
-  "T.FailNow / T.Fatal do not return; regexp semantics are uninterpreted (matchP / countP). NOT decided: env, kill, ttyin; what a successful cp/mv/mkdir/... did to the file system (the OS's); the evaluation of a user-supplied Condition callback, background-command status in wait, and the standalone testscript command's exit status beyond 'the failure flag is never cleared'; exec's verdict is covered as far as C04's process accounting and the usage check go",
+  "T.FailNow / T.Fatal do not return; regexp semantics are uninterpreted (matchP / countP). kill: a normal return means it was not negated, had at most two arguments, and the process signalled is the one named by the first argument unless that is a -SIGNAL option (then the second), all processes only when that name is absent or empty (killBackgroundOne/killBackground themselves and the choice of signal are trusted). NOT decided: env, ttyin; what a successful cp/mv/mkdir/... did to the file system (the OS's); the evaluation of a user-supplied Condition callback, background-command status in wait, and the standalone testscript command's exit status beyond 'the failure flag is never cleared'; exec's verdict is covered as far as C04's process accounting and the usage check go",
   "contract-based deductive verification: loop invariant over the script loop, call-site obligations and per-command postconditions over go/ssa; z3/cvc5"),
  "C02": ("5 C02",
   "Contracts on the tokenizer parse (every line[i], line[i+1], line[start:i] in bounds for every line; the scan terminates; every call of expand happens outside quotes, i.e. quoted text is never expanded), "
@@ -178,7 +178,7 @@ EXTRA = {
  "C14": " What txtar-c hands to NeedsQuote is the file's bytes as read, changed at most by one added final newline. isMarker, findFileMarker and fixNL (through which NeedsQuote's contract is discharged) are part of this check's set.",
  "C15": " cmd/txtar-x's main extracts the freshly parsed archive with txtar.Write into the directory given by -C and ends with exit status 1 exactly when Write failed; cmd/txtar-c's main walks from the cleaned directory argument, so entry names are relative to it. For the round-trip clause, the quoting functions (NeedsQuote, Quote, lemma quotedSafe), the marker scanner and Parse, with both txtar stand-ins (BOUNDED), are part of this check's set. Write returns its outside-parent error only for a name that is absolute or climbs out (in-bounds names such as ..data are not refused). A quoted file is announced in the comment under the same name its entry gets. txtar-c's walk callback never skips the root directory it was given.",
  "C16": " run (which must hold applyScriptUpdates on the defer stack before any line runs or fails) is part of this check's set. cmp reads its second operand from the file MkAbs names (never the stdout/stderr buffers).",
- "C18": " scanFiles (the caller that feeds files to ReadImports) is in this check's set: it reads imports without syntax-error reporting and only from the opened file. readKeyword: without error the byte after the keyword is peeked and is not an identifier byte; the stand-in also checks every generated file with CRLF line ends; ScanFiles hands its arguments to scanFiles unchanged. The reader records only its two sentinels or errors of the underlying reader, and ReadImports never returns the syntax sentinel when syntax errors are not requested. The // comment loop of peekByte terminates (decreases clause over remaining input, end of input and error); readKeyword skips white space before the keyword only, never between its bytes.",
+ "C18": " scanFiles (the caller that feeds files to ReadImports) is in this check's set: it reads imports without syntax-error reporting and only from the opened file. readKeyword: without error the byte after the keyword is peeked and is not an identifier byte; the stand-in also checks every generated file with CRLF line ends; ScanFiles hands its arguments to scanFiles unchanged. The reader records only its two sentinels or errors of the underlying reader, and ReadImports never returns the syntax sentinel when syntax errors are not requested. The // comment loop of peekByte terminates (decreases clause over remaining input, end of input and error); readKeyword skips white space before the keyword only, never between its bytes. peekByte's block-comment loop keeps the last two input bytes in its window, no */ ends before the window, and without error it stops just after the first */ that follows the opener (so /*/ does not close and /***/ does).",
  "C19": " scanFiles evaluates ShouldBuild on exactly the bytes it read and with the caller's tag map (unless the files were named explicitly).",
  "C20": " par.Cache's Do and Get (C10's rely-guarantee contracts) are part of this check's set; isPseudoVersion is compared with golang.org/x/mod/module.IsPseudoVersion by a BOUNDED stand-in over composed version strings (no build metadata other than +incompatible). readArchive looks an archive up under <dir>/<escaped path with / as _>_<escaped version> (.txtar and .txt appended for the file forms), uses that base name as cache key, and its cache closure always returns a typed value. The archive closure returns a non-nil archive only when one of the three loading steps succeeded.",
 }
